@@ -467,6 +467,14 @@ class ExtForms(RoundTrip):
     node (INTEGER, ENUMERATED, CHOICE, sizes), values drawn with out-of-root choices"""
     name = "uper-extrt"
 
+    def oracle(self, req, ans):
+        # the values are valid values of their types: a refusal other than the documented one (first
+        # addition absent, a later one present) is a failure of the second sentence of C06
+        if ans.startswith("err ") and ans != "err ext-inconsistent":
+            return f"a valid value of an extensible type (inside or outside the root) is refused: {ans[:80]}"
+        return super().oracle(req, ans)
+
+
     @staticmethod
     def extensible(node):
         h = node[0]
@@ -483,6 +491,7 @@ class ExtForms(RoundTrip):
         vals = uperlib.gen_values(seeds, "valid", 6, self.h)
         reqs = [f"uper rt {n} {ty} {val}" for n, ty, val, _ in vals]
         # every value of the extensible enumerations (each addition index once)
+        self._valid = True
         for n in names:
             node = ty_nodes(self.desc[n])[0]
             if node[0] == "enum":
